@@ -11,7 +11,7 @@ import (
 func init() {
 	Registry["C24"] = RuleDef{Module: ".", Run: runC24,
 		Technique:   "path-wise counting of hand-outs against the size counter, pairing of departures, ownership typestate of acquired wires, monitor rule for condition variables (lock sets on go/ssa)",
-		Explanation: "Decides for the blocking pool (R24a) that on every acyclic path of pool.Acquire a freshly made wire (dial or dead pipe) is returned with the size counter incremented exactly once on that path, and a popped idle wire with no net change; (R24b) that every wire that leaves the pool (Close of a wire in Store/Acquire/removeIdleConns) is paired with exactly one size decrement in the same block, and size/list/down are only touched under the pool's lock; (R24c) that every caller of Acquire gives the wire back on all paths (Store), hands it to DoStream/DoMultiStream, whose every return either owns (pool, wire) in the stream or has stored the wire, or parks it in a dedicated client whose release stores it; (R24d) the monitor rule: every Signal/Broadcast on the pool's condition happens with its lock held or after a critical section on it in the same function; (R24e) Close marks the pool down under the lock, closes idle wires and broadcasts, and Acquire under down returns only the dead wire; (R24f) Store always ends with a wake-up after its critical section.",
+		Explanation: "Decides for the blocking pool (R24a) that on every acyclic path of pool.Acquire a freshly made wire (dial or dead pipe) is returned with the size counter incremented exactly once on that path, and a popped idle wire with no net change; (R24b) that every wire that leaves the pool (Close of a wire in Store/Acquire/removeIdleConns) is paired with exactly one size decrement in the same block, and size/list/down are only touched under the pool's lock; (R24c) that every caller of Acquire gives the wire back on all paths (Store), hands it to DoStream/DoMultiStream, whose every return either owns (pool, wire) in the stream or has stored the wire, or parks it in a dedicated client whose release stores it; (R24d) the monitor rule: every Signal/Broadcast on the pool's condition happens with its lock held or after a critical section on it in the same function; (R24e) Close marks the pool down under the lock, closes idle wires and broadcasts, and Acquire under down returns only the dead wire; (R24f) Store always ends with a wake-up after its critical section. (R24h) a stream whose read breaks uncleanly gives its wire back in the same call, whatever number of replies was outstanding (constants are propagated through the stream's own counter field).",
 		NotDecided:  "interleavings (the bound under concurrency follows from R24a+R24b only together with the lock discipline, which is checked, but the argument is not mechanised); behaviour of the dial function; fairness of wake-ups."}
 }
 
@@ -31,6 +31,7 @@ func isSizeStore(in ssa.Instruction, op token.Token) bool {
 }
 
 func runC24(r *Report) {
+	streamBreakRule(r)
 	p := r.P
 	acq := r.FnAnchor("R24a", "rueidis.(*pool).Acquire")
 	store := r.FnAnchor("R24f", "rueidis.(*pool).Store")
@@ -466,5 +467,151 @@ func monitorRuleAlias(r *Report, rule string, scope func(*ssa.Function) bool, al
 			n := CalleeName(s.Call())
 			r.ObSite(rule, s, "monitor:"+n[strings.LastIndex(n, ".")+1:], ok, "a wake-up on "+cond+" must happen with "+lock+" held or after a critical section on it in this function; otherwise a waiter that has tested its predicate but not yet parked misses it (lost wake-up)")
 		}
+	}
+}
+
+// fieldConstMustPass walks the feasible paths from the start of block `from`, propagating constants
+// through stores and loads of struct fields (keyed by the address descriptor) and through integer
+// +,- and comparisons, pruning branch edges whose condition is thereby decided. It reports whether
+// every feasible path passes an instruction satisfying hit before it returns. Calls clear what is
+// known about fields (sound: a callee may write them).
+func fieldConstMustPass(fn *ssa.Function, from *ssa.BasicBlock, hit func(ssa.Instruction) bool) bool {
+	type env struct {
+		fields map[string]int64
+		vals   map[ssa.Value]int64
+		bools  map[ssa.Value]bool
+	}
+	clone := func(e env) env {
+		n := env{map[string]int64{}, map[ssa.Value]int64{}, map[ssa.Value]bool{}}
+		for k, v := range e.fields {
+			n.fields[k] = v
+		}
+		for k, v := range e.vals {
+			n.vals[k] = v
+		}
+		for k, v := range e.bools {
+			n.bools[k] = v
+		}
+		return n
+	}
+	num := func(e env, v ssa.Value) (int64, bool) {
+		if k, ok := ConstInt(v); ok {
+			return k, true
+		}
+		k, ok := e.vals[v]
+		return k, ok
+	}
+	steps := 0
+	on := map[*ssa.BasicBlock]bool{}
+	var walk func(b *ssa.BasicBlock, e env) bool // true = a return is reachable without hit
+	walk = func(b *ssa.BasicBlock, e env) bool {
+		steps++
+		if steps > 20000 {
+			return true
+		}
+		for _, in := range b.Instrs {
+			if hit(in) {
+				return false
+			}
+			switch x := in.(type) {
+			case *ssa.Return:
+				return true
+			case *ssa.Store:
+				d := DescDeep(x.Addr)
+				if k, ok := num(e, x.Val); ok {
+					e.fields[d] = k
+				} else {
+					delete(e.fields, d)
+				}
+			case *ssa.UnOp:
+				if x.Op == token.MUL {
+					if k, ok := e.fields[DescDeep(x.X)]; ok {
+						e.vals[x] = k
+					}
+				}
+			case *ssa.BinOp:
+				a, oka := num(e, x.X)
+				c, okc := num(e, x.Y)
+				if oka && okc {
+					switch x.Op {
+					case token.ADD:
+						e.vals[x] = a + c
+					case token.SUB:
+						e.vals[x] = a - c
+					case token.EQL:
+						e.bools[x] = a == c
+					case token.NEQ:
+						e.bools[x] = a != c
+					case token.GTR:
+						e.bools[x] = a > c
+					case token.LSS:
+						e.bools[x] = a < c
+					case token.GEQ:
+						e.bools[x] = a >= c
+					case token.LEQ:
+						e.bools[x] = a <= c
+					}
+				}
+			case ssa.CallInstruction:
+				e.fields = map[string]int64{}
+			}
+		}
+		iff, isif := b.Instrs[len(b.Instrs)-1].(*ssa.If)
+		for k, sc := range b.Succs {
+			if isif {
+				if v, known := e.bools[iff.Cond]; known && v != (k == 0) {
+					continue
+				}
+			}
+			if on[sc] {
+				continue
+			}
+			on[sc] = true
+			bad := walk(sc, clone(e))
+			on[sc] = false
+			if bad {
+				return true
+			}
+		}
+		return false
+	}
+	on[from] = true
+	return !walk(from, env{map[string]int64{}, map[ssa.Value]int64{}, map[ssa.Value]bool{}})
+}
+
+// streamBreakRule (R24h): when reading a streamed reply fails uncleanly the stream becomes
+// unusable (its error is latched), so the same call must give the wire back to the pool, however
+// many replies were still outstanding.
+func streamBreakRule(r *Report) {
+	for _, name := range []string{"rueidis.(*RedisResultStream).WriteTo"} {
+		fn := r.FnAnchor("R24h", name)
+		if fn == nil {
+			continue
+		}
+		n := 0
+		for _, s := range Sites(fn, func(in ssa.Instruction) bool {
+			st, ok := in.(*ssa.Store)
+			if !ok {
+				return false
+			}
+			_, f, _, isf := FieldRef(st.Addr)
+			if !isf || f != "e" {
+				return false
+			}
+			ex, isex := st.Val.(*ssa.Extract)
+			if !isex {
+				return false
+			}
+			c, isc := ex.Tuple.(*ssa.Call)
+			return isc && CalleeName(c) == "rueidis.streamTo"
+		}) {
+			n++
+			ok := fieldConstMustPass(fn, s.Block, func(in ssa.Instruction) bool {
+				_, is := CallTo(in, "rueidis.(*pool).Store")
+				return is
+			})
+			r.ObSite("R24h", s, "broken-stream-returns-its-wire", ok, "on the path where the stream's error is latched after an unclean read, every feasible continuation (constants propagated through the stream's own counter) stores the wire back to the pool in the same call")
+		}
+		r.Anchor("R24h", name+": unclean-read arm", n == 1)
 	}
 }
